@@ -101,6 +101,17 @@ func setStep(state string, in, out any) []string {
 			return nil
 		}
 		return []string{state}
+	case "SortAsc", "SortDesc":
+		// a sort is one atomic step: the set becomes (stays) ordered and holds
+		// the same members in comparator order
+		nv := append([]int{}, vals...)
+		sort.Ints(nv)
+		if i.Op == "SortDesc" {
+			for a, b := 0, len(nv)-1; a < b; a, b = a+1, b-1 {
+				nv[a], nv[b] = nv[b], nv[a]
+			}
+		}
+		return []string{encSet(true, nv)}
 	case "Iterate":
 		got := append([]int{}, o.List...)
 		want := append([]int{}, vals...)
@@ -160,7 +171,7 @@ func c18Concurrent(w *W) {
 		}
 		ops := make([]op, nOps)
 		for i := range ops {
-			ops[i] = op{simrt.Choose(6), 1 + simrt.Choose(4)}
+			ops[i] = op{simrt.Choose(7), 1 + simrt.Choose(4)}
 		}
 		simrt.Spawn(fmt.Sprintf("client%d", client), func() {
 			for _, o := range ops {
@@ -189,6 +200,21 @@ func c18Concurrent(w *W) {
 					r := h.Invoke(client, setIn{"Len", 0})
 					n := s.Len()
 					h.Return(r, setOut{N: n})
+				case 6:
+					// the comparator is user code: it may be slow (a yield)
+					desc := o.v%2 == 0
+					lt := func(a, b int) bool { simrt.Yield(); return (a < b) != desc }
+					name := "SortAsc"
+					if desc {
+						name = "SortDesc"
+					}
+					r := h.Invoke(client, setIn{name, 0})
+					if o.v <= 2 {
+						s.SortQuick(lt)
+					} else {
+						s.SortMerge(lt)
+					}
+					h.Return(r, setOut{})
 				}
 			}
 		})
